@@ -4,6 +4,7 @@ import (
 	"context"
 
 	"dsim/core"
+	"dsim/simos"
 
 	"github.com/dolthub/dolt/go/store/chunks"
 	"github.com/dolthub/dolt/go/store/nbs"
@@ -34,3 +35,6 @@ func ApplyJCfg(c JCfg) func() { return applyJCfg(c) }
 
 const JournalName = journalName
 const IndexName = indexName
+
+// ImageHash identifies a crash image by content.
+func ImageHash(img *simos.Image) string { return imageHash(img) }
